@@ -216,5 +216,11 @@ func main() {
 		c := Case{Kind: "random", Seed: rnd.U64(), Workers: rnd.Range(1, 4), Ops: rnd.Range(2, 14), Close: rnd.Intn(4) == 0, Reenter: rnd.Intn(3) == 0}
 		r.eval(c)
 	}
+	// 3. queue.go against the heap layer of the model
+	hn := 300
+	if thorough {
+		hn = 5000
+	}
+	r.heapDiff(rnd.Fork(), hn)
 	res.Note(fmt.Sprintf("forced schedules: %d points x %d ops; random histories: %d", len(Points), len(Ops), n))
 }
